@@ -81,7 +81,9 @@ def run(ctx):
     for _ in range(500 if q else 10000):
         r = rnd.random()
         K = gen.multi_core_kripke(rnd)[0] if r < 0.35 else gen.core_tail_kripke(rnd)[0] if r < 0.6 else gen.rand_kripke(rnd, rnd.choice([4, 5, 6]), density=rnd.choice([0.2, 0.3]))
-        fam_r.append({'K': K, 'f': ('A', gen.recurrence_formulas(rnd))})
+        g = gen.recurrence_formulas(rnd)
+        if gen.temporal_count(g) <= 4 and len(fam_r) < (250 if q else 6000):
+            fam_r.append({'K': K, 'f': ('A', g)})
     for fam in (fam_a, fam_b, fam_c, fam_d, fam_e, fam_n, fam_l, fam_s, fam_t, fam_r):
         for c in fam:
             c['logic'] = 'LTL'
